@@ -106,7 +106,9 @@ OnNew(e) ==
             type |-> e.type, srck |-> e.srck, bd |-> e.bd, hdr |-> e.hdr, ns |-> e.ns,
             link |-> e.link, mem |-> e.mem, N |-> e.N, net |-> 0,
             curblk |-> IF mine = {} THEN -1 ELSE MaxOf(mine) - 1,
-            cap0s |-> e.caps, caps |-> e.caps, fnE |-> e.fn, bsz |-> IF mine = {} THEN 0 ELSE st.blocks[MaxOf(mine)].size]
+            cap0s |-> e.caps, caps |-> e.caps, fnE |-> e.fn, bsz |-> IF mine = {} THEN 0 ELSE st.blocks[MaxOf(mine)].size,
+            \* memory_arena driven directly: the block stacks (block numbers, top = last)
+            used |-> <<>>, cach |-> <<>>, acached |-> e.acached]
       famOk == e.r \in OomFamily \cup SizeFamily \/ (e.r = "throw:injected" /\ e.upf > 0)
   IN Result([st EXCEPT !.objs = Append(@, o), !.pend = <<>>, !.inj = 0],
        Chk(ok \/ famOk, "C03", "ThrowIsLibraryFamily", <<"new", e.r>>)
@@ -258,7 +260,8 @@ OnCmp(e) ==
 OnShrink(e) ==
   LET o == Obj(e.o)
       mine == LiveBlocksOf(st, o.src)
-  IN Result([st EXCEPT !.expect = <<>>, !.eidx = 1, !.pend = <<>>, !.inj = 0],
+  IN Result([st EXCEPT !.expect = <<>>, !.eidx = 1, !.pend = <<>>, !.inj = 0, !.objs[e.o + 1].cach = <<>>],
+       Chk(\A i \in 1..Len(o.cach) : ~Blk(o.cach[i]).live, "C05", "ShrinkEmptiesCache", <<"arena", o.cach>>) \cup
        Chk(~(o.fam = "stack" /\ o.curblk >= 0) \/ \A i \in mine : i <= o.curblk + 1, "C05", "ShrinkEmptiesCache", <<o.curblk, mine>>)
        \cup NoStrayReports("shrink") \cup NoLeakReport("shrink"))
 
@@ -343,6 +346,52 @@ OnTdx(e) ==
     \cup Chk(e.bad = 0, "C08", "ForeignMemoryUntouched", <<e.id, e.bad>>)
     \cup NoStrayReports("tdx"))
 
+(* memory_arena driven directly (C05, C08, C18) *)
+Front(q) == SubSeq(q, 1, Len(q) - 1)
+LastOf(q) == q[Len(q)]
+OnAblk(e) ==
+  LET o == Obj(e.o)
+      fromCache == o.cach # <<>>
+      newest == Len(st.blocks) - 1
+      exp == IF fromCache THEN LastOf(o.cach) ELSE newest
+      ok == e.r = "ok"
+      used2 == IF ok THEN Append(o.used, e.b) ELSE o.used
+      cach2 == IF ok /\ fromCache THEN Front(o.cach) ELSE o.cach
+  IN Result([st EXCEPT !.objs[e.o + 1].used = used2, !.objs[e.o + 1].cach = cach2, !.pend = <<>>, !.inj = 0],
+       Chk(ok \/ e.r \in OomFamily \/ (e.r = "throw:injected" /\ st.inj > 0), "C03", "ThrowIsLibraryFamily", <<"arena", e.r>>)
+       \cup Chk(~(e.r \in OomFamily) \/ PendK("oom") # {}, "C03", "HandlerCalledFirst", <<"arena", e.r>>)
+       \cup Chk(~(ok /\ fromCache) \/ e.ups = 0, "C05", "CacheReusedBeforeUpstream", <<o.cach, e.ups>>)
+       \cup Chk(~ok \/ e.b = exp, "C05", "CachedBlocksComeBackInOrder", <<e.b, exp, o.cach>>)
+       \cup Chk(~ok \/ (HasBlk(e.b) /\ Blk(e.b).live /\ Blk(e.b).src = o.src /\ e.off = o.hdr /\ e.size = Blk(e.b).size - o.hdr),
+                "C05", "ArenaBlockIsUpstreamBlockMinusHeader", <<e.b, e.off, e.size>>)
+       \cup Chk(e.asz1 = Len(used2) /\ e.csz1 = Len(cach2) /\ e.acap1 = Len(used2) + Len(cach2), "C18", "ArenaCountersExact",
+                <<e.asz1, e.csz1, e.acap1, Len(used2), Len(cach2)>>)
+       \cup Chk(ok \/ (e.asz1 = e.asz0 /\ e.csz1 = e.csz0), "C05", "FailureLeavesStackIntact", <<e.asz0, e.asz1, e.csz0, e.csz1>>)
+       \cup Chk(~ok \/ e.owns, "C08", "ArenaOwnsExactlyUsedBlocks", <<"fresh block not owned", e.b>>)
+       \cup Chk(~(ok /\ cach2 # <<>>) \/ e.nbs1 = st.blocks[LastOf(cach2) + 1].size - o.hdr, "C18", "NextBlockSizeIsCachedBlock", <<e.nbs1, cach2>>)
+       \cup NoStrayReports("ablk") \cup NoLeakReport("ablk"))
+OnDblk(e) ==
+  LET o == Obj(e.o)
+      top == LastOf(o.used)
+      used2 == Front(o.used)
+      cach2 == IF o.acached THEN Append(o.cach, top) ELSE o.cach
+  IN IF o.used = <<>> THEN Result(st, {V("X", "ArenaDeallocWithoutBlock", <<e.o>>)})
+     ELSE Result([st EXCEPT !.objs[e.o + 1].used = used2, !.objs[e.o + 1].cach = cach2, !.pend = <<>>, !.inj = 0],
+       Chk(e.r = "ok", "C05", "DeallocateBlockNeverThrows", <<e.r>>)
+       \cup Chk(IF o.acached THEN e.ufs = 0 /\ Blk(top).live ELSE e.ufs = 1 /\ ~Blk(top).live, "C05", "DeallocatedBlockGoesToCacheOrSource", <<o.acached, e.ufs, top>>)
+       \cup Chk(e.asz1 = Len(used2) /\ e.csz1 = Len(cach2) /\ e.acap1 = Len(used2) + Len(cach2), "C18", "ArenaCountersExact",
+                <<e.asz1, e.csz1, e.acap1, Len(used2), Len(cach2)>>)
+       \cup NoStrayReports("dblk") \cup NoLeakReport("dblk"))
+OnAown(e) ==
+  LET o == Obj(e.o)
+      inUsed == \E i \in 1..Len(o.used) : o.used[i] = e.b
+      should == inUsed /\ e.off >= o.hdr /\ e.off < e.bsize
+  IN Result(st, Chk(e.res = should, "C08", "ArenaOwnsExactlyUsedBlocks", <<e.b, e.off, e.bsize, e.res, should>>))
+OnSwap(e) ==
+  LET a == Obj(e.a) c == Obj(e.c)
+  IN Result([st EXCEPT !.objs[e.a + 1] = c, !.objs[e.c + 1] = a, !.pend = <<>>, !.inj = 0],
+       Chk(e.r = "ok", "C12", "SwapNeverThrows", <<e.r>>) \cup NoStrayReports("swap") \cup NoLeakReport("swap"))
+
 (* draining: the reported number of free nodes is what can actually be obtained without growing *)
 OnDrain(e) ==
   LET o == Obj(e.o)
@@ -388,6 +437,10 @@ Apply(e) ==
     [] e.e = "destroy" -> OnDestroy(e)
     [] e.e = "sweep" -> OnSweep(e)
     [] e.e = "drain" -> OnDrain(e)
+    [] e.e = "ablk" -> OnAblk(e)
+    [] e.e = "dblk" -> OnDblk(e)
+    [] e.e = "aown" -> OnAown(e)
+    [] e.e = "swap" -> OnSwap(e)
     [] e.e = "salloc" -> OnSalloc(e)
     [] e.e = "sfree" -> OnSfree(e)
     [] e.e = "tdx" -> OnTdx(e)
